@@ -1,6 +1,6 @@
 """C09 — durations as a consistent signed quantity (limit table, record totality, sibling agreement, wiring)."""
 from ._std import *
-from ..rules import wiring, units
+from ..rules import ranges, wiring, units
 from ..rules.common import hir_walk, node_line, OPT, UNIT, vname, fold
 
 EXPLANATION = (
@@ -207,4 +207,5 @@ def main(tier):
     check_guarded_call(run, fx, rs.fn(D + "Duration::add"), "is_calendar_unit", "::add_days",
                        "R11.add-rejects-calendar-units", "Duration::add", kind="Range", guard_pass=False)
     units.report(run, fx, "C09")
+    ranges.check_balance(run, fx)
     return run.finish(EXPLANATION)
